@@ -997,19 +997,28 @@ Proof.
     replace (S n + k) with (n + S k) by lia. exact He'.
 Qed.
 
+(* the row [r], read in context [c], is the head of a loop that is not skipped, over variable [x] *)
+Definition loop_head (c : ctx) (r : raw) (row : irow) (x : str) (more : list str) : Prop :=
+  instantiate pol c r = ROk row /\ i_kind row = KBeginFor /\ i_inc row = true
+  /\ i_vars row = x :: more /\ x <> [].
+
+(* [bodies] = the desugared loop body, once per element of [elems], the k-th one in the context
+   extended with x := the k-th element (and the index variable := k); [rem] = what follows end_for *)
+Definition bodies_of (f : nat) (rest : list raw) (c : ctx) (x : str) (idx : option str) (elems : list str)
+           (bodies : list (list raw)) (rem : list raw) : Prop :=
+  length bodies = length elems
+  /\ forall k e, nth_error elems k = Some e ->
+       exists b, nth_error bodies k = Some b /\ DS f rest (bind_loop c x idx e k) BFor false = ROk (b, rem).
+
 Theorem ds_loop f r rest c bt row x more :
-  instantiate pol c r = ROk row -> i_kind row = KBeginFor -> i_inc row = true ->
-  i_vars row = x :: more -> x <> [] -> i_iter row <> [] ->
+  loop_head c r row x more -> i_iter row <> [] ->
   forall bodies rem out rem',
-    length bodies = length (i_iter row) ->
-    (forall k e, nth_error (i_iter row) k = Some e ->
-       exists b, nth_error bodies k = Some b
-                 /\ DS f rest (bind_loop c x (idx_of more) e k) BFor false = ROk (b, rem)) ->
+    bodies_of f rest c x (idx_of more) (i_iter row) bodies rem ->
     DS f rem c bt false = ROk (out, rem') ->
     DS (S f) (r :: rest) c bt false
     = ROk (lit_row KBeginBlock (i_id row) (i_text row) :: concat bodies ++ end_row :: out, rem').
 Proof.
-  intros Hi Hk Hinc Hv Hx Hne bodies rem out rem' Hlen Hb Hout.
+  intros [Hi [Hk [Hinc [Hv Hx]]]] Hne bodies rem out rem' [Hlen Hb] Hout.
   cbn [ds]. rewrite Hi, Hk, end_of_block_for, Hinc. cbn [negb orb]. rewrite Hv.
   destruct x as [|x0 xr]; [contradiction Hx; reflexivity|].
   rewrite (ds_iter_bodies (fun c' => DS f rest c' BFor false) c (x0 :: xr) (idx_of more) rem (i_iter row) 0 bodies rest Hlen Hb).
@@ -1019,59 +1028,60 @@ Qed.
 
 (* a loop over nothing: an empty block; its body is found by reading with omit (c) *)
 Theorem ds_loop_empty f r rest c bt row x more o rem out rem' :
-  instantiate pol c r = ROk row -> i_kind row = KBeginFor -> i_inc row = true ->
-  i_vars row = x :: more -> x <> [] -> i_iter row = [] ->
+  loop_head c r row x more -> i_iter row = [] ->
   DS f rest c BFor true = ROk (o, rem) ->
   DS f rem c bt false = ROk (out, rem') ->
   DS (S f) (r :: rest) c bt false
   = ROk (lit_row KBeginBlock (i_id row) (i_text row) :: end_row :: out, rem').
 Proof.
-  intros Hi Hk Hinc Hv Hx Hit Ho Hout.
+  intros [Hi [Hk [Hinc [Hv Hx]]]] Hit Ho Hout.
   cbn [ds]. rewrite Hi, Hk, end_of_block_for, Hinc. cbn [negb orb]. rewrite Hv.
   destruct x as [|x0 xr]; [contradiction Hx; reflexivity|].
   rewrite Hit. cbn [ds_iter]. rewrite Ho, Hout. reflexivity.
 Qed.
 
-(* (e) nesting composes: a loop whose body starts with a loop.  The inner loop is unrolled inside every
-   copy of the outer body, under the context extended first with the outer, then with the inner
-   variable (so an inner variable of the same name shadows the outer one, and only inside) *)
-Theorem ds_nested_loops f r1 r2 rest c bt row1 x more y more2 :
-  instantiate pol c r1 = ROk row1 -> i_kind row1 = KBeginFor -> i_inc row1 = true ->
-  i_vars row1 = x :: more -> x <> [] -> i_iter row1 <> [] -> y <> [] ->
-  forall (heads : list irow) (inner : list (list (list raw))) (tails : list (list raw)) rem2 rem out rem',
-    length heads = length (i_iter row1) -> length inner = length (i_iter row1) -> length tails = length (i_iter row1) ->
-    (forall k e, nth_error (i_iter row1) k = Some e ->
-       let ck := bind_loop c x (idx_of more) e k in
-       exists row2 Bk tail,
+(* (e) nesting composes: a loop whose body starts with a loop [r2].  The inner loop is unrolled inside
+   every copy of the outer body, in the context extended first with the outer, then with the inner
+   variable (an inner variable of the same name shadows the outer one, and only inside).
+   heads/inner/tails: per outer element, the inner head as read there, the copies of the inner body,
+   and the desugared rest of the outer body *)
+Definition nested_bodies_of (f : nat) (r2 : raw) (rest : list raw) (c : ctx) (x : str) (idx : option str) (elems : list str)
+           (y : str) (more2 : list str)
+           (heads : list irow) (inner : list (list (list raw))) (tails : list (list raw)) (rem : list raw) : Prop :=
+  length heads = length elems /\ length inner = length elems /\ length tails = length elems
+  /\ forall k e, nth_error elems k = Some e ->
+       let ck := bind_loop c x idx e k in
+       exists row2 Bk tail rem2,
          nth_error heads k = Some row2 /\ nth_error inner k = Some Bk /\ nth_error tails k = Some tail
-         /\ instantiate pol ck r2 = ROk row2 /\ i_kind row2 = KBeginFor /\ i_inc row2 = true
-         /\ i_vars row2 = y :: more2 /\ i_iter row2 <> [] /\ length Bk = length (i_iter row2)
-         /\ (forall j e', nth_error (i_iter row2) j = Some e' ->
-               exists b, nth_error Bk j = Some b
-                         /\ DS f rest (bind_loop ck y (idx_of more2) e' j) BFor false = ROk (b, rem2))
-         /\ DS f rem2 ck BFor false = ROk (tail, rem)) ->
+         /\ loop_head ck r2 row2 y more2 /\ i_iter row2 <> []
+         /\ bodies_of f rest ck y (idx_of more2) (i_iter row2) Bk rem2
+         /\ DS f rem2 ck BFor false = ROk (tail, rem).
+
+Definition nested_block (hbt : irow * (list (list raw) * list raw)) : list raw :=
+  lit_row KBeginBlock (i_id (fst hbt)) (i_text (fst hbt)) :: concat (fst (snd hbt)) ++ end_row :: snd (snd hbt).
+
+Theorem ds_nested_loops f r1 r2 rest c bt row1 x more y more2 :
+  loop_head c r1 row1 x more -> i_iter row1 <> [] ->
+  forall heads inner tails rem out rem',
+    nested_bodies_of f r2 rest c x (idx_of more) (i_iter row1) y more2 heads inner tails rem ->
     DS (S f) rem c bt false = ROk (out, rem') ->
     DS (S (S f)) (r1 :: r2 :: rest) c bt false
     = ROk (lit_row KBeginBlock (i_id row1) (i_text row1)
-           :: concat (map (fun hbt : irow * (list (list raw) * list raw) =>
-                             lit_row KBeginBlock (i_id (fst hbt)) (i_text (fst hbt))
-                             :: concat (fst (snd hbt)) ++ end_row :: snd (snd hbt))
-                          (combine heads (combine inner tails)))
-           ++ end_row :: out, rem').
+           :: concat (map nested_block (combine heads (combine inner tails))) ++ end_row :: out, rem').
 Proof.
-  intros Hi Hk Hinc Hv Hx Hne Hy heads inner tails rem2 rem out rem' Lh Li Lt Hall Hout.
-  refine (ds_loop (S f) r1 (r2 :: rest) c bt row1 x more Hi Hk Hinc Hv Hx Hne _ rem out rem' _ _ Hout).
+  intros Hh Hne heads inner tails rem out rem' [Lh [Li [Lt Hall]]] Hout.
+  refine (ds_loop (S f) r1 (r2 :: rest) c bt row1 x more Hh Hne _ rem out rem' _ Hout). split.
   - rewrite map_length, !combine_length, Lh, Li, Lt. lia.
-  - intros k e He. destruct (Hall k e He) as [row2 [Bk [tail [Hh [Hin [Ht [Hi2 [Hk2 [Hinc2 [Hv2 [Hne2 [Hl2 [Hb2 Htail]]]]]]]]]]]]].
+  - intros k e He. destruct (Hall k e He) as [row2 [Bk [tail [rem2 [Hhd [Hin [Ht [Hh2 [Hne2 [Hb2 Htail]]]]]]]]]].
     eexists. split.
     + apply map_nth_error. instantiate (1 := (row2, (Bk, tail))).
-      clear - Hh Hin Ht. revert k inner tails Hh Hin Ht.
-      induction heads as [|h hs IH]; intros [|k] inner tails Hh Hin Ht; destruct inner as [|i0 is]; destruct tails as [|t0 ts];
+      clear - Hhd Hin Ht. revert k inner tails Hhd Hin Ht.
+      induction heads as [|h hs IH]; intros [|k] inner tails Hhd Hin Ht; destruct inner as [|i0 is]; destruct tails as [|t0 ts];
         cbn in *; try discriminate.
-      * inversion Hh; inversion Hin; inversion Ht; subst. reflexivity.
-      * exact (IH _ _ _ Hh Hin Ht).
-    + cbn [fst snd].
-      exact (ds_loop f r2 rest _ BFor row2 y more2 Hi2 Hk2 Hinc2 Hv2 Hy Hne2 Bk rem2 tail rem Hl2 Hb2 Htail).
+      * inversion Hhd; inversion Hin; inversion Ht; subst. reflexivity.
+      * exact (IH _ _ _ Hhd Hin Ht).
+    + unfold nested_block. cbn [fst snd].
+      exact (ds_loop f r2 rest _ BFor row2 y more2 Hh2 Hne2 Bk rem2 tail rem Hb2 Htail).
 Qed.
 
 (* (f) a desugared sheet is a fixed point: nothing is left to unroll, at any depth, in any context *)
